@@ -73,12 +73,13 @@ def ensure_driver():
         raise InfraError("cannot build rpmfacts driver:\n" + r.stderr[-4000:])
 
 
-def build_facts(config="default+bzip2", repo=REPO, cache=CACHE, quiet=True):
+def build_facts(config="default+bzip2", repo=REPO, cache=CACHE, quiet=True, scratch=False):
     """Return (path_to_fact_file, info dict). Raises InfraError when the tree does not compile."""
     ensure_driver()
     feats = CONFIGS[config]
     os.makedirs(cache, exist_ok=True)
-    repo_tag = "main" if os.path.abspath(repo) == "/repo" else hashlib.sha256(os.path.abspath(repo).encode()).hexdigest()[:8]
+    # scratch copies (self-tests) share one dependency cache: only the rpm crate is rebuilt per copy
+    repo_tag = "main" if os.path.abspath(repo) == "/repo" else ("scratch" if scratch else hashlib.sha256(os.path.abspath(repo).encode()).hexdigest()[:8])
     lock_path = os.path.join(cache, "lock-%s-%s" % (repo_tag, config))
     with open(lock_path, "w") as lock:
         fcntl.flock(lock, fcntl.LOCK_EX)
